@@ -66,6 +66,9 @@ func (w *walker) measureAll(schemaKeys map[string]bool) int {
 	n := 0
 	for i := 0; i < len(w.types); i++ {
 		t := w.types[i]
+		if w.opaque[i] {
+			continue // probes would run the custom unmarshaller, not yaml.v3's struct decoding
+		}
 		cands := map[string]bool{sentinel: true}
 		for k := range schemaKeys {
 			cands[k] = true
